@@ -181,3 +181,17 @@ Qed.
 
 Lemma empty_is_none : time_to_smpp TNone = Ok [] /\ smpp_to_time [] = Ok TNone.
 Proof. split; reflexivity. Qed.
+
+(* ---- FixedOffset.from_timezone ---- *)
+Theorem from_timezone_offset (positive : bool) h m :
+  0 <= h < 100 -> 0 <= m < 100 ->
+  from_timezone ((if positive then 43 else 45) :: two h ++ two m) = Ok ((if positive then 1 else -1) * (h * 60 + m)).
+Proof.
+  intros Hh Hm. unfold from_timezone, two, slice. cbn [app skipn firstn Nat.sub].
+  rewrite (two_parse h Hh), (two_parse m Hm).
+  destruct positive.
+  - cbn [existsb]. rewrite Z.eqb_refl. cbn [orb]. f_equal. lia.
+  - assert (existsb (Z.eqb 43) [45; digit (h / 10); digit (h mod 10); digit (m / 10); digit (m mod 10)] = false) as Hd.
+    { unfold digit. cbn [existsb]. repeat rewrite orb_false_iff. repeat split; try reflexivity; apply Z.eqb_neq; lia. }
+    rewrite Hd. f_equal. lia.
+Qed.
